@@ -19,6 +19,9 @@ from harness import vloop
 from tools.facts.common import fresh_import
 
 WAIT = {'all': all, 'any': any, 'object': object, 'none': None}
+# what a member that "returns a value" returns: truthy and falsy-but-not-None objects
+VALUES = [lambda i: ('value', i), lambda i: 0, lambda i: False, lambda i: '', lambda i: [],
+          lambda i: 0.0, lambda i: i + 1]
 
 
 class Impl:
@@ -52,11 +55,14 @@ class Impl:
 
     # ------------------------------------------------------------------ plumbing
     def idle(self):
+        """run the loop at constant virtual time until nothing is ready and no timer is due"""
         for _ in range(20000):
-            if not self.loop._ready:
-                return
             self.loop.call_soon(self.loop.stop)
             self.loop.run_forever()
+            now = self.loop.time()
+            due = any(not h.cancelled() and h.when() <= now for h in self.loop._scheduled)
+            if not self.loop._ready and not due:
+                return
         raise vloop.Livelock('loop never goes idle')
 
     def ident(self, task):
@@ -67,6 +73,10 @@ class Impl:
 
     async def member(self, i, children):
         CancelledError = self.curio.CancelledError
+        if i % 3 == 1:
+            # an inner timeout that expired and was handled before the member settles down
+            async with self.curio.ignore_after(0):
+                await self.curio.sleep(5)
         try:
             k = await self.gate[i]
         except CancelledError:
@@ -86,7 +96,7 @@ class Impl:
             raise
         if k == 'e':
             raise KeyError(i)
-        return None if k == 'n' else ('value', i)
+        return None if k == 'n' else VALUES[i % len(VALUES)](i)
 
     def drop(self, j):
         t = self.task.pop(j)
@@ -123,8 +133,14 @@ class Impl:
         try:
             if kind == 'J':
                 await self.g.join()
+            elif raised == 'c':
+                exc = CancelledError()
+                await self.g.__aexit__(CancelledError, exc, None)
+            elif raised:
+                exc = KeyError('body')
+                await self.g.__aexit__(KeyError, exc, None)
             else:
-                await self.g.__aexit__(KeyError if raised else None, None, None)
+                await self.g.__aexit__(None, None, None)
             self.obs.append('jx0')
             self.join_state = 'exited'
         except CancelledError:
@@ -246,7 +262,7 @@ def valid_actions(im, r, nmax=6, allow_consumer_during_join=True):
     if js is None:
         acts.append(('J',))
         acts.append(('J',))
-        acts.append(('E', r.random() < 0.5))
+        acts.append(('E', r.choice([False, True, 'c'])))
         acts.append(('N', len(im.consumers)))
     elif js in ('active', 'cancelled'):
         acts.append(('K',))
@@ -270,7 +286,7 @@ def ser_action(a, perm):
     if k == 'J':
         return f'J {p}'
     if k == 'E':
-        return f'E {int(a[1])} {p}'
+        return f'E {"c" if a[1] == "c" else int(bool(a[1]))} {p}'
     if k == 'K':
         return f'K {p}'
     if k == 'N':
@@ -325,12 +341,13 @@ def run_trace(repo, policy, actions_or_rng, max_steps=14, nmax=6, retain=False,
         }
         # "nothing can be added afterwards"
         if im.g.joined:
-            try:
-                im.mk(9999, False, ())
-                snap['add_after_join'] = 'accepted'
-            except RuntimeError:
-                snap['add_after_join'] = 'refused'
-                im.drop(9999)
+            snap['add_after_join'] = 'refused'
+            for nid, dm in ((9999, False), (9998, True)):
+                try:
+                    im.mk(nid, dm, ())
+                    snap['add_after_join'] = 'accepted' + (' (daemon)' if dm else '')
+                except RuntimeError:
+                    im.drop(nid)
         if im.g.joined:
             comp = im.g.completed
             try:
